@@ -22,3 +22,7 @@ def run(ctx):
     c10_round.run_part(ctx)
     ctx.coverage["rule"] = rule_a + " || round trip: " + str(ctx.coverage.get("rule", ""))
     ctx.coverage["rule"] = "(b) text->AST: %s || (a) AST->grammar: %s" % (rule_b, ctx.coverage.get("rule", ""))
+    # the FromStr entry points (yacc kind read from the text's own %grmtools header): metamorphic tie to `new`
+    from checks import c10_header
+    c10_header.run_part(ctx)
+    ctx.coverage["rule"] += " || FromStr entry points: " + ctx.coverage.pop("header_rule", "")
